@@ -3,10 +3,11 @@ from pyvc.bounded import NativeBounded
 
 
 class ConfigIndependenceBounded(NativeBounded):
-    property_ids = ["C04"]
+    property_ids = ["C04", "C02", "C03"]
     module = "contracts.determinism_native"
     func = "bounded_config_independence"
-    what = "mosaik.scenario.World.run (whole run: two runs of one scenario compared)"
+    what = ("mosaik.scenario.World.run (whole run: two runs of one scenario compared; the baseline run of every ungrouped scenario also "
+            "against a sequential reference semantics of C02/C03)")
 
 
 BOUNDED = [ConfigIndependenceBounded()]
